@@ -84,10 +84,15 @@ namespace c07
 
     // ---- system the way every caller prepares it: filter_mat on the assembled matrix
     Pat pat = sys.pat();
-    LM Af = make_csr<DT, Index>(pat);
+    LM Araw = make_csr<DT, Index>(pat);
+    LM Af = Araw.clone();
     LF lf = build_filter<DT>((LF*)nullptr, n, fidx, fval);
     lf.filter_mat(Af);
+    // second practice of the callers (tutorial_06_global): the system matrix is left unfiltered and the solver's own
+    // filter_def/filter_cor calls impose the constraints; the system being solved (and the oracle) is the same filtered one
+    const bool matfilt = !have_filter || !t.flag(1, 3);
     const Dense D = dense_of(Af);           // oracle view from the raw arrays (validated)
+    const Dense Dsol = matfilt ? D : dense_of(Araw);   // what the solver's matrix.apply() sees
     VF_CHECK(D.r == n && D.c == n, "harness:matrix dims");
     DenseLU lu(D);
     VF_CHECK(!lu.singular, "harness:generated system singular");
@@ -116,6 +121,8 @@ namespace c07
       else if(kind == K_PCGNR || (kind == K_PMR && !sys.sym)) { static const int tab[3] = { P_NONE, P_JACOBI, P_SCALE }; pk = tab[t.pick({3, 2, 1})]; }
       else if(conv_mode && slow_method(kind)) { static const int tab[3] = { P_NONE, P_JACOBI, P_SCALE }; pk = tab[t.pick({3, 2, 1})]; }
       else { static const int tab[5] = { P_NONE, P_JACOBI, P_SSOR, P_ILU, P_SCALE }; pk = tab[t.pick({4, 2, 2, 2, 1})]; }
+      // sweeps over an unfiltered matrix couple constrained and free rows (callers build SSOR/ILU from a filtered matrix)
+      if(!matfilt && (pk == P_SSOR || pk == P_ILU)) pk = P_JACOBI;
       sp.prec = pk;
       auto pom = [&](int p) -> double
       {
@@ -171,7 +178,7 @@ namespace c07
       std::vector<double> v((size_t)n, 1.0 / std::sqrt((double)n)), z((size_t)n); double lam = 0, lam_old = 0;
       for(int it = 0; it < 40; ++it)
       {
-        double zz = 0; for(int i = 0; i < n; ++i) { double s = 0; for(int j = 0; j < n; ++j) s += (double)D(i, j) * v[(size_t)j]; z[(size_t)i] = s; zz += s * s; }
+        double zz = 0; for(int i = 0; i < n; ++i) { double s = 0; for(int j = 0; j < n; ++j) s += (double)Dsol(i, j) * v[(size_t)j]; z[(size_t)i] = s; zz += s * s; }
         double nz = std::sqrt(zz); lam = 0; for(int i = 0; i < n; ++i) { v[(size_t)i] = z[(size_t)i] / nz; lam += v[(size_t)i] * z[(size_t)i]; }
         if(std::fabs((lam - lam_old) / lam) < 1e-4) break; lam_old = lam;
       }
@@ -355,12 +362,13 @@ namespace c07
     c.label("sys:" + sys.cls.substr(0, sys.cls.find('('))); c.label(std::string("op:") + (SA.correct ? "correct" : "apply")); c.label("rhs:" + SA.rhs_cls); if(SA.correct) c.label("x0:" + SA.x0_cls);
     c.label(std::string("hist:") + (reinit == 0 ? "single-init" : reinit == 1 ? "reinit-numeric" : "reinit-full")); if(rep_a) c.label("hist:repeat"); if(have_b) c.label("hist:interleaved");
     if(!conv_mode) { if(cfg.min_iter >= cfg.max_iter) c.label("cfg:min>=max"); if(cfg.min_stag) c.label("cfg:stagnation-check"); if(cfg.has_div_rel || cfg.has_div_abs) c.label("cfg:divergence-limits"); if(cfg.has_tol_abs || cfg.has_tol_abs_low) c.label("cfg:abs-tolerances"); if(cfg.plot) c.label("cfg:plot"); if(!cfg.skip) c.label("cfg:noskip"); }
+    if(have_filter) c.label(matfilt ? "matrix:filtered" : "matrix:unfiltered"); c.desc.set("matrix_filtered", matfilt);
     if(poison) c.label("heap:nan-poisoned"); c.desc.set("heap_poison", poison);
     if(n == 1) c.label("n:1"); else if(n == 2) c.label("n:2"); else if(n < 10) c.label("n:3-9"); else if(n < 30) c.label("n:10-29"); else c.label("n:30+");
     if(SA.exact_start) c.label("x0:exact-zero-defect");
 
     // ---- everything below touches the solver
-    BE be(std::move(Af), std::move(lf));
+    BE be(matfilt ? std::move(Af) : std::move(Araw), std::move(lf));
     auto mk = [&]() { auto s = make_solver<G>(be, sp); apply_cfg(*s, cfg); return s; };
     typedef SolveResult<DT> SR;
     // one solve on solver s; 'fill' = prior content of the output vector for apply()
